@@ -264,7 +264,14 @@ func (c *fctx) whileStmt(s *ast.ForStmt, next func() string) string {
 	if len(names) > 0 {
 		np = tuple(names)
 	}
-	rest := next()
+	// a loop without condition ends only by return (or not at all): what follows it is
+	// unreachable, and so is the Go_next / Some branch below (the condition is constantly true)
+	rest := ""
+	if s.Cond == nil {
+		rest = c.fuelOut()
+	} else {
+		rest = next()
+	}
 	if simple {
 		return pre + fmt.Sprintf("match go_while fuel\n    (fun %s => %s)\n    (fun %s =>\n%s)\n    %s with\n| None => %s\n| Some %s =>\n%s\nend",
 			statePattern(cn), cond, statePattern(bn), indent(body, "      "), stateTuple(initXs), c.fuelOut(), np, indent(rest, "  "))
